@@ -353,17 +353,68 @@ Section ChannelStream.
     exact (Hn (stream_sends_has_returning p data f)).
   Qed.
 
-  (** ** [ParseFile] *)
+  (** ** [ParseFile]
+
+      After repair F23 an unreadable path sends the I/O error AND Done
+      ([file_sends None = [MErr ChIO; MDone]]), as [ParseStream] does after every
+      other error: every [ParseFile], readable or not, now contains the
+      returning message of both policies. *)
+
+  Lemma file_sends_unreadable : file_sends None = [MErr ChIO; MDone].
+  Proof. reflexivity. Qed.
 
   Lemma file_sends_unreadable_stop : has_returning NM StopAtFirstError (file_sends None).
   Proof. exists (MErr ChIO). split; [left; reflexivity | reflexivity]. Qed.
 
-  Lemma file_sends_unreadable_drain : ~ has_returning NM DrainUntilDone (file_sends None).
-  Proof. intros [m [[<-|[]] Hr]]. discriminate. Qed.
+  Lemma file_sends_unreadable_drain_returning : has_returning NM DrainUntilDone (file_sends None).
+  Proof. exists MDone. split; [right; left; reflexivity | reflexivity]. Qed.
+
+  Lemma file_sends_unreadable_has_returning : forall p, has_returning NM p (file_sends None).
+  Proof. intros [|]; [apply file_sends_unreadable_stop | apply file_sends_unreadable_drain_returning]. Qed.
+
+  Lemma file_sends_has_returning : forall p content, has_returning NM p (file_sends content).
+  Proof.
+    intros p [[d f]|]; [apply stream_sends_has_returning | apply file_sends_unreadable_has_returning].
+  Qed.
 
   Lemma file_sends_has_returning_stop : forall content, has_returning NM StopAtFirstError (file_sends content).
+  Proof. intros content. apply file_sends_has_returning. Qed.
+
+  (** every [ParseFile] ends with its only [MDone], and everything before it
+      lets the draining consumer go on *)
+  Lemma file_sends_ends_in_done : forall content,
+    exists pre, file_sends content = pre ++ [MDone] /\ ~ In MDone pre /\
+                Forall (continuing NM DrainUntilDone) pre.
   Proof.
-    intros [[d f]|]; [apply stream_sends_has_returning | apply file_sends_unreadable_stop].
+    intros [[d f]|].
+    - destruct (drain_spec_stream d f) as [_ [_ [_ H]]]. exact H.
+    - exists [MErr ChIO]. split; [reflexivity|]. split.
+      + intros [H|[]]; discriminate.
+      + repeat constructor.
+  Qed.
+
+  (** the error a [ParseFile] reports: the I/O error of an unreadable path, else
+      the callback parser's error *)
+  Definition file_error (content : option (bytes * read_fault)) : option cherr :=
+    match content with
+    | None => Some ChIO
+    | Some (d, f) => option_map lift_err (snd (callback_result d f))
+    end.
+
+  Definition file_nodes (content : option (bytes * read_fault)) : list pnode :=
+    match content with
+    | None => []
+    | Some (d, f) => fst (callback_result d f)
+    end.
+
+  Definition cherr_msgs (e : option cherr) : list msg :=
+    match e with None => [] | Some e => [MErr e] end.
+
+  Theorem file_sends_shape : forall content,
+    file_sends content = map MNode (file_nodes content) ++ cherr_msgs (file_error content) ++ [MDone].
+  Proof.
+    intros [[d f]|]; [|reflexivity]. cbn [Channel.file_sends file_nodes file_error].
+    rewrite stream_sends_callback. destruct (snd (callback_result d f)) as [e|]; reflexivity.
   Qed.
 
   (** the documented loop terminates on every [ParseFile], readable or not *)
@@ -382,26 +433,97 @@ Section ChannelStream.
     apply documented_loop_sees_callback_result.
   Qed.
 
-  (** the known observation: on an unreadable path [ParseFile] sends the error
-      and no Done; a consumer that waits for Done sees the error once, the
-      producer exits ([pending = []]), and the consumer waits forever *)
-  Theorem drain_unreadable_file : forall pt ct s,
+  (** ... and, as after every [ParseStream] error, the consumer that returns at
+      the error leaves the producer holding the [MDone] it can never deliver:
+      after F23 this is so for the unreadable path too (before, the producer
+      had exited) *)
+  Theorem documented_loop_file_pending : forall content pt ct s,
+    reachable StopAtFirstError (init (file_sends content) pt ct) s ->
+    maximal NM StopAtFirstError s ->
+    pending s = match file_error content with None => [] | Some _ => [MDone] end.
+  Proof.
+    intros content pt ct s H Hmax.
+    destruct (final_spec NM _ _ _ _ _ H Hmax) as [_ [Hp _]]. rewrite Hp.
+    destruct content as [[d f]|]; [|reflexivity].
+    cbn [Channel.file_sends file_error]. rewrite stream_sends_callback.
+    destruct (snd (callback_result d f)) as [e|]; cbn [err_msgs app option_map].
+    - rewrite run_consumer_at_returning; [reflexivity | apply map_MNode_continuing | apply MErr_returning_stop].
+    - rewrite run_consumer_at_returning; [reflexivity | apply map_MNode_continuing | apply MDone_returning].
+  Qed.
+
+  (** no consumer of [ParseFile] following either policy is ever left waiting on
+      channels nobody will send on: for every content, readable or not *)
+  Theorem file_no_deadlock : forall p content pt ct s,
+    reachable p (init (file_sends content) pt ct) s -> ~ deadlocked NM s.
+  Proof.
+    intros p content pt ct s H D.
+    destruct (deadlock_only_without_returning NM _ _ _ _ _ H D) as [Hn _].
+    exact (Hn (file_sends_has_returning p content)).
+  Qed.
+
+  (** the draining consumer on every [ParseFile]: in every maximal run it has
+      returned, the producer has nothing left to send, and the consumer has
+      seen all that was sent: the records, at most one error (exactly one iff
+      the path is unreadable or the callback parser returns an error), Done *)
+  Theorem drain_file : forall content pt ct s,
+    reachable DrainUntilDone (init (file_sends content) pt ct) s ->
+    maximal NM DrainUntilDone s ->
+    cons s = Returned /\
+    pending s = [] /\
+    obs s = file_sends content /\
+    obs s = map MNode (file_nodes content) ++ cherr_msgs (file_error content) ++ [MDone] /\
+    count_errs (obs s) <= 1 /\
+    (count_errs (obs s) = 1 <-> file_error content <> None) /\
+    ~ deadlocked NM s.
+  Proof.
+    intros content pt ct s H Hmax.
+    destruct (final_spec NM _ _ _ _ _ H Hmax) as [Ho [_ [_ [Hr _]]]].
+    destruct (file_sends_ends_in_done content) as [pre [E [_ Hpre]]].
+    assert (Hs : spec DrainUntilDone (file_sends content) = file_sends content).
+    { rewrite E. rewrite spec_at_returning; [reflexivity | exact Hpre | apply MDone_returning]. }
+    rewrite Hs in Ho.
+    destruct (safety NM _ _ _ _ _ H) as [Hsends _]. rewrite Ho in Hsends.
+    assert (Hp : pending s = []).
+    { rewrite <- (app_nil_r (file_sends content)) in Hsends at 1. exact (eq_sym (app_inv_head _ _ _ Hsends)). }
+    split; [exact (Hr (file_sends_has_returning _ content))|].
+    split; [exact Hp|]. split; [exact Ho|]. rewrite Ho.
+    split; [apply file_sends_shape|]. rewrite file_sends_shape.
+    rewrite !count_errs_app, count_errs_nodes.
+    split; [destruct (file_error content); cbn; lia|].
+    split; [|exact (file_no_deadlock _ _ _ _ _ H)].
+    destruct (file_error content); cbn; split; intros H1; try lia; try discriminate; congruence.
+  Qed.
+
+  (** the unreadable path under [DrainUntilDone] (before F23: a deadlock): the
+      consumer sees the I/O error once and then Done, returns, the producer
+      has exited, and there is no deadlock *)
+  Theorem drain_unreadable_file_terminates : forall pt ct s,
     reachable DrainUntilDone (init (file_sends None) pt ct) s ->
     maximal NM DrainUntilDone s ->
-    obs s = [MErr ChIO] /\ pending s = [] /\ cons s = Receiving /\ deadlocked NM s.
+    cons s = Returned /\ obs s = [MErr ChIO; MDone] /\ pending s = [] /\ ~ deadlocked NM s.
   Proof.
     intros pt ct s H Hmax.
-    destruct (final_spec NM _ _ _ _ _ H Hmax) as [_ [_ [_ [_ Hn]]]].
-    destruct (Hn file_sends_unreadable_drain) as [[Hc Hp] [_ Ho]].
+    destruct (drain_file None pt ct s H Hmax) as [Hc [Hp [Ho [_ [_ [_ Hd]]]]]].
     repeat split; assumption.
   Qed.
 
-  Theorem drain_unreadable_file_deadlock_reachable : forall pt ct,
-    exists s, reachable DrainUntilDone (init (file_sends None) pt ct) s /\ deadlocked NM s.
+  (** ... and no deadlock at ANY moment of any schedule on the unreadable path,
+      under either policy (the negation of the old
+      [drain_unreadable_file_deadlock_reachable]) *)
+  Theorem unreadable_file_no_deadlock_reachable : forall p pt ct,
+    ~ exists s, reachable p (init (file_sends None) pt ct) s /\ deadlocked NM s.
+  Proof. intros p pt ct [s [Hr Hd]]. exact (file_no_deadlock p None pt ct s Hr Hd). Qed.
+
+  (** the unreadable path under the documented loop: the consumer returns at
+      the error; the producer stays blocked on Done *)
+  Theorem stop_unreadable_file : forall pt ct s,
+    reachable StopAtFirstError (init (file_sends None) pt ct) s ->
+    maximal NM StopAtFirstError s ->
+    cons s = Returned /\ obs s = [MErr ChIO] /\ pending s = [MDone].
   Proof.
-    intros pt ct.
-    destruct (deadlock_reachable_without_returning NM DrainUntilDone _ pt ct file_sends_unreadable_drain)
-      as [s [Hr [Hd _]]].
-    exists s. split; assumption.
+    intros pt ct s H Hmax.
+    destruct (documented_loop_file None pt ct s H Hmax) as [Hc Ho].
+    pose proof (documented_loop_file_pending None pt ct s H Hmax) as Hp.
+    repeat split; assumption.
   Qed.
 End ChannelStream.
